@@ -57,7 +57,7 @@ LEVEL_NOTE = ("Trusts the transport seam to see every write (including those "
               "issued from the Rust NewPack/index code) and the documented "
               "atomicity of put_file/rename; power loss reordering below the "
               "file-system API is out of scope.")
-REGISTERED = False
+REGISTERED = True
 NONTRIVIAL_FLOOR = {"quick": 300, "thorough": 5000}
 
 FORMATS = ["2a", "pack-0.92"]
@@ -334,6 +334,6 @@ MINIMAL = {"format": "2a", "op": {"op": "commit"}, "packs": [],
 def kinds(tier):
     return [
         Kind("crash-enumeration", run, strategy=scenario(tier),
-             examples={"quick": 24, "thorough": 500},
+             examples={"quick": 24, "thorough": 1000},
              shrink_s={"quick": 60, "thorough": 600}),
     ]
